@@ -422,6 +422,12 @@ fn run(ctx: &Ctx, rep: &Report) {
                     push(m, format!("header extended by tag {t} type {typ}"), &mut cases);
                 }
             }
+            // truncations: the whole payload gone, all but its first / last byte gone, half of it gone
+            for cut in [p.payload_start, p.payload_start + 1, p.payload_start + plen / 2, bytes.len().saturating_sub(1)] {
+                if cut < bytes.len() {
+                    push(bytes[..cut].to_vec(), format!("truncated to {cut} of {} bytes (payload starts at {})", bytes.len(), p.payload_start), &mut cases);
+                }
+            }
             // multi-byte edits in header and payload
             for _ in 0..if envelope_only { ctx.tier.pick(50, 2000) } else { ctx.tier.pick(500, 20_000) } {
                 let mut m = bytes.clone();
